@@ -3,11 +3,13 @@ package c16
 
 import (
 	"bytes"
+	"encoding/json"
 	"fmt"
 	"os"
 	"path/filepath"
 	"sort"
 	"strings"
+	"sync"
 
 	"github.com/jhalter/mobius/hotline"
 	"github.com/jhalter/mobius/verifshim"
@@ -64,8 +66,83 @@ func init() {
 	quick := (exhaustiveN + 1500 + group - 1) / group
 	core.Register(&core.Simple{
 		Id: "C16", Lvl: "exploration", Quick: quick, Thorough: (exhaustiveN + 150000) / group, PerBatch: 40, Width: 16, Timeout: 1500,
-		RuleText: "bitmaps over the 40 defined privileges are enumerated: empty, all 40 single bits and all 780 pairs (exhaustive), all-40, then seeded random subsets; for each bitmap the account is saved through the real account manager (YAML keys set to true must be exactly the reference names), reloaded by a fresh manager, later edited to the next bitmap (every second edit also changes the login) with memory, file and a fresh manager compared again, written in legacy numeric-array form and loaded (migration) and reloaded, logged in (user-access field compared byte-for-byte, MSB-first), and probed with governed requests (chat, board read/post, list accounts, new folder, broadcast, client info) whose grant/deny must follow the same numbering. distinct = bitmap; non-trivial = non-empty bitmap",
+		RuleText: "bitmaps over the 40 defined privileges are enumerated: empty, all 40 single bits and all 780 pairs (exhaustive), all-40, then seeded random subsets; for each bitmap the account is saved through the real account manager (YAML keys set to true must be exactly the reference names), reloaded by a fresh manager, later edited to the next bitmap (every second edit also changes the login, every fourth goes through a set-user request above 4 KiB with the privilege field before a long name) with memory, file and a fresh manager compared again, written in legacy numeric-array form and loaded (migration) and reloaded, logged in (user-access field compared byte-for-byte, MSB-first), and probed with governed requests (chat, board read/post, list accounts, new folder, broadcast, client info) whose grant/deny must follow the same numbering. a stress batch has four editors change the privileges of the same account at the same moment (8 accounts, 500 rounds quick): memory and file must agree afterwards. distinct = bitmap; non-trivial = non-empty bitmap",
 		Case:     runCase,
+		Extra: func(tier string, seed int64) []core.Batch {
+			n := 500
+			if tier == "thorough" {
+				n = 20000
+			}
+			a, _ := json.Marshal(map[string]int{"rounds": n})
+			return []core.Batch{{Name: "concurrent-edits", Args: a, Timeout: 1200}}
+		},
+		RunExtra: runConcurrentEdits,
+	})
+}
+
+// runConcurrentEdits: several editors change the privileges of the same account at the same moment. Whatever the
+// order, once they are done the running server and the account file must hold the same privileges.
+func runConcurrentEdits(b core.Batch, em *core.Emitter) {
+	var a struct {
+		Rounds int `json:"rounds"`
+	}
+	json.Unmarshal(b.Args, &a)
+	id := "C16/concurrent-edits"
+	core.SafeCase(em, id, func() {
+		em.Begin(id, nil)
+		srv, err := fixture.New(fixture.Options{})
+		if err != nil {
+			em.Emit(core.Result{Case: id, Verdict: core.Inconclusive, Msg: err.Error()})
+			return
+		}
+		defer srv.Close()
+		users := filepath.Join(srv.ConfigDir, "Users")
+		r := core.NewRand(b.Seed, 0x16, 0xED)
+		const nAcc, nEd = 8, 4
+		for i := 0; i < nAcc; i++ {
+			srv.S.AccountManager.Create(hotline.Account{Login: fmt.Sprintf("shared%d", i), Name: "S", Password: fixture.HashPassword("")})
+		}
+		res := core.Result{Case: id, Class: "concurrent-edits", Verdict: core.Held, Obs: map[string]int{}, Sample: map[string]any{"accounts": nAcc, "editors_per_account": nEd, "rounds": a.Rounds}}
+		for round := 0; round < a.Rounds && res.Verdict == core.Held; round++ {
+			var wg sync.WaitGroup
+			start := make(chan struct{})
+			for i := 0; i < nAcc; i++ {
+				for e := 0; e < nEd; e++ {
+					set, _ := bitsetFor(exhaustiveN+r.Intn(100000), b.Seed)
+					bm := rc.Bitmap(set...)
+					wg.Add(1)
+					go func(i int, bm []byte) {
+						defer wg.Done()
+						<-start
+						acc := srv.S.AccountManager.Get(fmt.Sprintf("shared%d", i))
+						if acc == nil {
+							return
+						}
+						copy(acc.Access[:], bm)
+						srv.S.AccountManager.Update(*acc, acc.Login)
+					}(i, bm)
+				}
+			}
+			close(start)
+			wg.Wait()
+			res.Obs["concurrent_edit_rounds"]++
+			m2, err := verifshim.NewYAMLAccountManager(users)
+			if err != nil {
+				res.Verdict, res.Key, res.Msg = core.Violated, "C16/concurrent-edits/reload", "fresh manager after concurrent edits: "+err.Error()
+				break
+			}
+			for i := 0; i < nAcc; i++ {
+				l := fmt.Sprintf("shared%d", i)
+				mem, disk := srv.S.AccountManager.Get(l), m2.Get(l)
+				if mem == nil || disk == nil || mem.Access != disk.Access {
+					res.Verdict, res.Key = core.Violated, "C16/concurrent-edits/memory-differs-from-file"
+					res.Msg = fmt.Sprintf("round %d: after %d concurrent edits of account %s the running server holds privileges %x, the account file %x", round, nEd, l, accessOf(mem), accessOf(disk))
+					break
+				}
+			}
+		}
+		em.Emit(res)
+		em.Emit(core.Result{Case: id + "/rounds", Class: "concurrent-edits-rounds", Verdict: core.Held})
 	})
 }
 
@@ -241,6 +318,7 @@ func runCase(c *core.Case) {
 	}
 	// (6) the other way an account is saved: an edit, with or without a change of login in the same request. The
 	// privileges become those of the NEXT item; memory, the file (by name) and a fresh manager must all show them.
+	var editor *refclient.Client
 	for gi, it := range items {
 		next := items[(gi+1)%len(items)]
 		acc := srv.S.AccountManager.Get(it.login)
@@ -253,15 +331,33 @@ func runCase(c *core.Case) {
 		if gi%2 == 0 {
 			newLogin = it.login + "-renamed"
 		}
-		if err := srv.S.AccountManager.Update(*acc, newLogin); err != nil {
-			c.Fail("C16/edit/error", "update %s -> %s: %v", it.login, newLogin, err)
-			continue
-		}
-		c.Count("edits", 1)
 		what := "edit"
 		if newLogin != it.login {
 			what = "edit-with-rename"
 		}
+		if gi%4 == 1 {
+			// this edit goes through the protocol: a set-user request larger than 4 KiB whose privilege field comes
+			// before a long display name
+			what = "edit-by-large-set-user"
+			if editor == nil {
+				editor, _ = refclient.LoginAs(srv, "10.16.9.1:1", "admin", "", "Editor")
+			}
+			if editor == nil {
+				c.Unsure("editor login failed")
+				return
+			}
+			longName := strings.Repeat("N", 4100+c.R.Intn(3000))
+			rep, ok := editor.Call(353, rc.F(110, next.bm), rc.FS(102, longName), rc.F(105, rc.Obfuscate([]byte(it.login))), rc.F(106, []byte{0}))
+			if !ok || rep.Err != 0 {
+				c.Fail("C16/edit/refused", "set-user for %s refused: %v", it.login, rep)
+				continue
+			}
+			c.Count("edits_by_large_set_user", 1)
+		} else if err := srv.S.AccountManager.Update(*acc, newLogin); err != nil {
+			c.Fail("C16/edit/error", "update %s -> %s: %v", it.login, newLogin, err)
+			continue
+		}
+		c.Count("edits", 1)
 		if a := srv.S.AccountManager.Get(newLogin); a == nil || !bytes.Equal(a.Access[:], next.bm) {
 			c.Fail("C16/"+what+"/memory", "%s from privileges %v to %v: the running server holds %x, want %x", what, it.set, next.set, accessOf(a), next.bm)
 		}
